@@ -138,6 +138,8 @@ def gen_observer(rng, v, layout, gap):
             other = ["py", 1] if dt != "bool" else ["py", True]
         elif r < 0.6:
             other = ["col", dt, [_val(rng, dt) for _ in range(n)]]
+            if dt.startswith("float") and rng.random() < 0.4:
+                other = ["col", dt, [rng.choice([0.1, 2.5, 1e16, 1.0, -3.3, 1e-3]) for _ in range(n)]]
         else:
             other = ["var", rng.choice(same)] if same else ["py", 1]
         a, b = (["var", v], other) if rng.random() < 0.6 else (other, ["var", v])
